@@ -37,8 +37,12 @@ struct Monitor {
    std::map<int,long> queuedWriters;         // waiting writer -> sequence number of its QueueW
    std::vector<int> curOp; std::vector<bool> expired; std::vector<int> rdAtStart, wrAtStart;
    long seq;
-   std::vector<std::string> violations, known;
-   void Reset(int n, bool p) {nt = n; prefer = p; rd.assign(n, 0); wr.assign(n, 0); callStart.assign(n, 0); queuedWriters.clear(); curOp.assign(n, OP_NONE); expired.assign(n, false); rdAtStart.assign(n, 0); wrAtStart.assign(n, 0); seq = 0; violations.clear(); known.clear();}
+   std::vector<std::string> violations, known, drifts;
+   std::vector<int> apiR, apiW;              // per thread: holds according to what the public calls RETURNED (no events involved)
+   void D(const std::string & s) {if (drifts.size() < 3) drifts.push_back(s);}
+   // does the public API agree that thread o may hold the lock right now?  (a thread inside a call may have taken / given up a hold already)
+   bool ApiMayHold(int o) const {return (apiR[o] > 0)||(apiW[o] > 0)||(curOp[o] != OP_NONE);}
+   void Reset(int n, bool p) {nt = n; prefer = p; apiR.assign(n, 0); apiW.assign(n, 0); drifts.clear(); rd.assign(n, 0); wr.assign(n, 0); callStart.assign(n, 0); queuedWriters.clear(); curOp.assign(n, OP_NONE); expired.assign(n, false); rdAtStart.assign(n, 0); wrAtStart.assign(n, 0); seq = 0; violations.clear(); known.clear();}
    void V(const std::string & s) {if (violations.size() < 5) violations.push_back(s);}
    void OpBegin(int t, int op) {curOp[t] = op; expired[t] = false; rdAtStart[t] = rd[t]; wrAtStart[t] = wr[t]; callStart[t] = seq;}
    void OpEnd(int t, int op, bool ok)
@@ -46,7 +50,25 @@ struct Monitor {
       char b[200];
       int erd = rdAtStart[t], ewr = wrAtStart[t];
       if (ok) { if (op <= OP_LRTIMED) erd++; else if (op <= OP_LWTIMED) ewr++; else if (op == OP_UR) erd--; else if (op == OP_UW) ewr--; }
-      if ((rd[t] != erd)||(wr[t] != ewr)) { snprintf(b, sizeof(b), "T%d %s returned %s but holds (read %d, write %d), expected (%d, %d)", t+1, OPN[op], ok?"OK":"error", rd[t], wr[t], erd, ewr); V(b); }
+      // the holds the code's events announce differ from what the call's result implies: bookkeeping of the EVENTS, not of the public API - drift
+      if ((rd[t] != erd)||(wr[t] != ewr)) { snprintf(b, sizeof(b), "T%d %s returned %s but the code's events say it holds (read %d, write %d), the results of its calls imply (%d, %d)", t+1, OPN[op], ok?"OK":"error", rd[t], wr[t], erd, ewr); D(b); }
+      // ---- the property at the level of the public API (no events involved) ----
+      if ((!ok)&&((op == OP_LR)||(op == OP_LW))) { snprintf(b, sizeof(b), "T%d: %s (no deadline) failed", t+1, OPN[op]); V(b); }
+      if ((!ok)&&(op == OP_UR)&&(apiR[t] > 0)) { snprintf(b, sizeof(b), "T%d: UnlockReadOnly failed although its calls so far left it with %d read lock(s)", t+1, apiR[t]); V(b); }
+      if ((!ok)&&(op == OP_UW)&&(apiW[t] > 0)) { snprintf(b, sizeof(b), "T%d: UnlockReadWrite failed although its calls so far left it with %d write lock(s)", t+1, apiW[t]); V(b); }
+      if (ok) {
+         if (op <= OP_LRTIMED) {
+            // another thread holds WRITE by the results of its calls and is not inside a call that could be giving it up
+            if (apiW[t] == 0) for (int o=0; o<nt; o++) if ((o != t)&&(apiW[o] > 0)&&(curOp[o] == OP_NONE)) {snprintf(b, sizeof(b), "T%d's %s returned OK while T%d holds the lock for writing (by the results of its own calls) and is outside any call", t+1, OPN[op], o+1); V(b);}
+            apiR[t]++;
+         }
+         else if (op <= OP_LWTIMED) {
+            for (int o=0; o<nt; o++) if ((o != t)&&(curOp[o] == OP_NONE)&&((apiW[o] > 0)||(apiR[o] > 0))) {snprintf(b, sizeof(b), "T%d's %s returned OK while T%d holds the lock (read %d, write %d by the results of its own calls) and is outside any call", t+1, OPN[op], o+1, apiR[o], apiW[o]); V(b);}
+            apiW[t]++;
+         }
+         else if (op == OP_UR) {if (apiR[t] > 0) apiR[t]--;}
+         else if (op == OP_UW) {if (apiW[t] > 0) apiW[t]--;}
+      }
       curOp[t] = OP_NONE; expired[t] = false;
    }
    void OnEvent(int t, const std::string & n, long site)
@@ -54,16 +76,16 @@ struct Monitor {
       char b[200]; seq++;
       if ((t < 0)||(t >= nt)) return;
       if (n == "AcqR") {
-         for (int o=0; o<nt; o++) if ((o != t)&&(wr[o] > 0)) {snprintf(b, sizeof(b), "T%d acquired READ while T%d holds WRITE", t+1, o+1); V(b);}
+         for (int o=0; o<nt; o++) if ((o != t)&&(wr[o] > 0)) {snprintf(b, sizeof(b), "T%d acquired READ while T%d holds WRITE", t+1, o+1); if (ApiMayHold(o)) V(b); else D(std::string(b)+" according to the code's events only (T's calls have all returned and left it without a hold)");}
          if ((prefer)&&(rd[t] == 0)&&(wr[t] == 0)) for (std::map<int,long>::iterator it = queuedWriters.begin(); it != queuedWriters.end(); ++it) if ((it->first != t)&&(it->second < callStart[t])) {snprintf(b, sizeof(b), "T%d acquired READ (call began at %ld) overtaking writer T%d waiting since %ld, with writer preference", t+1, callStart[t], it->first+1, it->second); V(b);}
          rd[t]++;
       }
       else if (n == "AcqW") {
-         for (int o=0; o<nt; o++) if (o != t) { if (wr[o] > 0) {snprintf(b, sizeof(b), "T%d acquired WRITE while T%d holds WRITE", t+1, o+1); V(b);} if (rd[o] > 0) {snprintf(b, sizeof(b), "T%d acquired WRITE while T%d holds READ", t+1, o+1); V(b);} }
+         for (int o=0; o<nt; o++) if (o != t) { if (wr[o] > 0) {snprintf(b, sizeof(b), "T%d acquired WRITE while T%d holds WRITE", t+1, o+1); if (ApiMayHold(o)) V(b); else D(std::string(b)+" according to the code's events only");} if (rd[o] > 0) {snprintf(b, sizeof(b), "T%d acquired WRITE while T%d holds READ", t+1, o+1); if (ApiMayHold(o)) V(b); else D(std::string(b)+" according to the code's events only");} }
          wr[t]++; queuedWriters.erase(t);
       }
-      else if (n == "RelR") { if (rd[t] <= 0) {snprintf(b, sizeof(b), "T%d released READ it does not hold", t+1); V(b);} else rd[t]--; }
-      else if (n == "RelW") { if (wr[t] <= 0) {snprintf(b, sizeof(b), "T%d released WRITE it does not hold", t+1); V(b);} else wr[t]--; }
+      else if (n == "RelR") { if (rd[t] <= 0) {snprintf(b, sizeof(b), "T%d's events release a READ hold that its events never took", t+1); D(b);} else rd[t]--; }
+      else if (n == "RelW") { if (wr[t] <= 0) {snprintf(b, sizeof(b), "T%d's events release a WRITE hold that its events never took", t+1); D(b);} else wr[t]--; }
       else if (n == "QueueW") queuedWriters[t] = seq;
       else if (n == "FailW") queuedWriters.erase(t);
       (void) site;
@@ -117,7 +139,7 @@ static void PuppetMain(Puppet * p)
    vs::ThreadBegin();
    while(true) {
       vs::OpBoundary();
-      if (p->draining) { while (p->rw > 0) (void) DoOp(*p, OP_UW); while (p->ro > 0) (void) DoOp(*p, OP_UR); break; }
+      if (p->draining) { while (p->rw > 0) if (!DoOp(*p, OP_UW)) break; while (p->ro > 0) if (!DoOp(*p, OP_UR)) break; break; }     // (an unlock that fails is recorded by the monitor; do not spin on it)
       const int op = p->cmd; p->cmd = OP_NONE;
       if (op == OP_QUIT) break;
       if (op == OP_NONE) continue;
@@ -136,8 +158,8 @@ static void ProgramMain(Puppet * p)
       (void) DoOp(*p, op);
       vs::OpBoundary();
    }
-   while (p->rw > 0) (void) DoOp(*p, OP_UW);
-   while (p->ro > 0) (void) DoOp(*p, OP_UR);
+   while (p->rw > 0) if (!DoOp(*p, OP_UW)) break;
+   while (p->ro > 0) if (!DoOp(*p, OP_UR)) break;
    vs::ThreadEnd();
 }
 
@@ -162,6 +184,17 @@ static size_t g_evSeen = 0;
 static void ObserveEvent(const vs::Event & e) {NoteOp(); M.OnEvent(e.tid, e.name, e.a[0]);}
 static void FeedMonitor() {}
 
+// every thread has finished and released what its calls gave it: a fresh thread must get the lock for writing at once (public API only)
+static void QuiescenceProbe(int nt)
+{
+   for (int t=0; t<nt; t++) if ((M.rd[t] != 0)||(M.wr[t] != 0)) M.D("the code's events leave a finished thread with a hold");
+   bool apiClean = true; for (int t=0; t<nt; t++) if ((M.apiR[t] != 0)||(M.apiW[t] != 0)) apiClean = false;
+   if (!apiClean) return;      // an unlock failed (already reported): the probe would only repeat it
+   const bool was = vs::S.active; vs::S.active = false;       // the probe is the harness's own call: not part of the recorded execution
+   const bool got = g_m->TryLockReadWrite().IsOK(); if (got) (void) g_m->UnlockReadWrite();
+   vs::S.active = was;
+   if (!got) M.V("after every thread released everything its calls had given it, a fresh TryLockReadWrite() fails: a hold is stuck in the lock");
+}
 static const char * PcOfStop(vs::LThread * l)
 {
    if (l->finished) return "finished";
@@ -231,7 +264,7 @@ static int Replay(const char * inFile, bool prefer, const char * outFile)
          for (int t=0; t<nt; t++) {ps[t]->cmd = OP_QUIT; (void) vs::Step(t);}
          bool allDone = true; for (int t=0; t<nt; t++) if (!vs::S.LT[t]->finished) allDone = false;
          if (!allDone) {drift = "behaviour complete in the spec but a thread of the code has not finished"; cannotFollow = true;}
-         else { followed++; for (int t=0; t<nt; t++) if ((M.rd[t] != 0)||(M.wr[t] != 0)) M.V("a finished thread still holds the lock"); }
+         else { followed++; QuiescenceProbe(nt); }
       }
       if (cannotFollow) {
          // leave the schedule: everybody finishes its current call, releases everything; the deadlock detector decides "stranded"
@@ -241,8 +274,9 @@ static int Replay(const char * inFile, bool prefer, const char * outFile)
          drifted++;
       }
       ysteps += vs::S.steps;
-      if ((!M.violations.empty())||(cannotFollow)||(!M.known.empty())) {
+      if ((!M.violations.empty())||(cannotFollow)||(!M.known.empty())||(!M.drifts.empty())) {
          mj::Value rec = mj::Value::Obj(); rec.set("behaviour", mj::Value::Int(beh["id"].i())); rec.set("prefer", mj::Value::Bool(prefer));
+         if (!M.drifts.empty()) {mj::Value da = mj::Value::Arr(); for (size_t k=0; k<M.drifts.size(); k++) da.push(mj::Value::Str(M.drifts[k])); rec.set("monitor_drift", da);}
          if (!M.violations.empty()) {violated++; mj::Value va = mj::Value::Arr(); for (size_t k=0; k<M.violations.size(); k++) va.push(mj::Value::Str(M.violations[k])); rec.set("violations", va);}
          if (!M.known.empty()) {knownHits++; mj::Value ka = mj::Value::Arr(); for (size_t k=0; k<M.known.size(); k++) ka.push(mj::Value::Str(M.known[k])); rec.set("known", ka);}
          if (cannotFollow) {rec.set("drift", mj::Value::Str(drift)); rec.set("step", mj::Value::Int((int64_t) failStep));}
@@ -293,8 +327,10 @@ static int Explore(uint32 iters, int nt, int nops, uint32 seed0, int preferSel, 
          const bool ok = vs::RunAllRandom(nt);
          FeedMonitor(); execs++; ysteps += vs::S.steps; nevents += (long) vs::S.events.size();
          if (!ok) {stranded++; M.V(std::string("STRANDED: no thread can run although every finished thread released what it held:") + vs::S.blockedDesc);}
-         if ((!M.violations.empty())||(!M.known.empty())) {
+         else QuiescenceProbe(nt);
+         if ((!M.violations.empty())||(!M.known.empty())||(!M.drifts.empty())) {
             mj::Value rec = mj::Value::Obj(); rec.set("seed", mj::Value::Int(seed)).set("prefer", mj::Value::Bool(prefer == 1)).set("threads", mj::Value::Int(nt));
+            if (!M.drifts.empty()) {mj::Value da = mj::Value::Arr(); for (size_t k=0; k<M.drifts.size(); k++) da.push(mj::Value::Str(M.drifts[k])); rec.set("monitor_drift", da);}
             if (!M.violations.empty()) {violated++; mj::Value va = mj::Value::Arr(); for (size_t k=0; k<M.violations.size(); k++) va.push(mj::Value::Str(M.violations[k])); rec.set("violations", va);}
             if (!M.known.empty()) {knownHits++; mj::Value ka = mj::Value::Arr(); for (size_t k=0; k<M.known.size(); k++) ka.push(mj::Value::Str(M.known[k])); rec.set("known", ka);}
             mj::Value pa = mj::Value::Arr(); for (int t=0; t<nt; t++) {mj::Value q = mj::Value::Arr(); for (size_t k=0; k<ps[t]->program.size(); k++) q.push(mj::Value::Str(OPN[ps[t]->program[k]])); pa.push(q);} rec.set("programs", pa);
